@@ -193,7 +193,7 @@ func isValidFlag(s string) bool {
 				return false
 			}
 		} else {
-			if !IsAtomChar(ch) {
+			if ch > unicode.MaxASCII || !IsAtomChar(ch) {
 				return false
 			}
 		}
